@@ -9,7 +9,7 @@ import (
 	rt "github.com/Azbesciak/RealDecisionMaker/lib/zz_verifrt"
 )
 
-//verif:bounds C12 HC12_elimination: considered A in 1..4 (quick) / 1..5 (thorough) of A or A+1 known alternatives, K<=2 (quick) / K<=3 (thorough) criteria (first gain or cost, others alternate), pairwise distinct symbolic weights; aspiration levels: 1..2 (quick) / 1..3 (thorough) explicit threshold levels with free values, or a generated series (additive / multiplied) with concrete parameters from a small family; fixed alternative order; all values free reals
+//verif:bounds C12 HC12_elimination: considered A in 1..4 of A or A+1 known alternatives, K<=2 (quick) / K<=3 (thorough) criteria (first gain or cost, others alternate), pairwise distinct symbolic weights; aspiration levels: 1..2 (quick) / 1..3 (thorough) explicit threshold levels with free values, or a generated series (additive / multiplied) with concrete parameters from a small family; fixed alternative order; all values free reals
 //verif:bounds C12 HC12_shuffled: seeded-random alternative order (draws symbolic), A<=3, K<=2, explicit levels; only the order-independent clauses
 //verif:outside C12: ties between criterion weights (broken by the seeded generator; only well-formedness is claimed there, see C01); symbolic series parameters (see C14); sizes beyond the bounds
 //verif:assume C12: the threshold list used by the oracle is obtained from a second instance of the real satisfaction-levels source (its content is the subject of C14)
@@ -79,7 +79,7 @@ func c12relational(tag string, s *c12setup, r *model.AlternativesRanking, order 
 
 //verif:harness HC12_elimination mode=REAL reach=eliminated,two-survivors,stopped-early,cost,single,second-level
 func HC12_elimination() {
-	s := c12build(rt.Pick(4, 5), rt.Pick(2, 3), rt.Pick(2, 3), false)
+	s := c12build(4, rt.Pick(2, 3), rt.Pick(2, 3), false)
 	h := NewAspectEliminationHeuristic(c12sources, rt.Generators)
 	r := h.Evaluate(s.dmp)
 	vh.WellFormed("C12.wellformed", r, s.chose)
